@@ -84,8 +84,8 @@ def canon(pid, tier, replay):
             if bad:
                 found.append((replay, "CanonicalizePath(%r) = %r, reference %r" % (fnlib.bytes_to_text(rp["in"]), fnlib.bytes_to_text(bad[0]["got"]), fnlib.bytes_to_text(rp["exp"]))))
             return report(pid, found, {})
-        maxlen = 9 if tier == "quick" else 11
-        explen = 8 if tier == "quick" else 10
+        maxlen = 9 if tier == "quick" else 10
+        explen = 8 if tier == "quick" else 9      # TLC builds the exported set in memory (limit 1,000,000 elements)
         ngen = 150 if tier == "quick" else 1500
         # 1. laws on the reference, exhaustively (one state per string)
         mc = fnlib.mc_run("CanonPath.tla", "SPECIFICATION Spec\nCONSTANT MaxLen = %d\nINVARIANT LawsHold\nCHECK_DEADLOCK FALSE\n" % maxlen, wd)
